@@ -90,6 +90,9 @@ pub struct HistScenario {
     pub policy: Policy,
     pub n_callers: usize,
     pub observe_every_step: bool,
+    /// replay the add / replace / remove / validate steps on a parser whose id type has
+    /// massively colliding hashes (see coarse.rs); file steps are ignored
+    pub coarse_ids: bool,
 }
 
 pub fn size(s: &HistScenario) -> (usize, usize) {
@@ -113,6 +116,7 @@ pub fn to_json(s: &HistScenario) -> J {
         .set("policy", s.policy.to_json())
         .set("n_callers", J::u(s.n_callers as u64))
         .set("observe_every_step", J::Bool(s.observe_every_step))
+        .set("coarse_ids", J::Bool(s.coarse_ids))
         .set(
             "steps",
             J::Arr(
@@ -229,6 +233,7 @@ pub fn from_json(j: &J) -> Result<HistScenario, String> {
             .get("observe_every_step")
             .and_then(|b| b.as_bool())
             .unwrap_or(true),
+        coarse_ids: j.get("coarse_ids").and_then(|b| b.as_bool()).unwrap_or(false),
     })
 }
 
@@ -570,6 +575,7 @@ fn generate_tiny(rng: &mut Rng) -> (HistScenario, String) {
         tag: "validate".to_owned(),
     });
     let observe_every_step = rng.pct(50);
+    let coarse_ids = rng.pct(25);
     let desc = format!("tiny: 3 ids x 7 content classes, steps={} callers={n_callers} policy={} observe_all={observe_every_step}", steps.len(), policy.name());
     (
         HistScenario {
@@ -577,6 +583,7 @@ fn generate_tiny(rng: &mut Rng) -> (HistScenario, String) {
             policy,
             n_callers,
             observe_every_step,
+            coarse_ids,
         },
         desc,
     )
@@ -610,7 +617,8 @@ pub fn generate(rng: &mut Rng, prop: Prop, thorough: bool) -> (HistScenario, Str
     let w_readd = *rng.pick(&[0u32, 5, 15]);
     let w_warmup = *rng.pick(&[0u32, 0, 0, 4]);
     let mut past: Vec<(String, Content)> = Vec::new();
-    let files_enabled = prop == Prop::C12 && rng.pct(75) || prop == Prop::C13 && rng.pct(30);
+    let coarse_ids = prop == Prop::C12 && rng.pct(12);
+    let files_enabled = !coarse_ids && (prop == Prop::C12 && rng.pct(75) || prop == Prop::C13 && rng.pct(30));
     let w_disk = if files_enabled { *rng.pick(&[10u32, 20]) } else { 0 };
     let w_add_file = if files_enabled { *rng.pick(&[15u32, 30, 45]) } else { 0 };
     let p_fault = *rng.pick(&[0u32, 30, 50, 70]);
@@ -848,6 +856,14 @@ pub fn generate(rng: &mut Rng, prop: Prop, thorough: bool) -> (HistScenario, Str
                     steps.push(mk(rng, Op::AddFile { path: p, arg, plan: FaultPlan::default(), passthrough: passthrough_run }, "add_file:reload_after_save"));
                 }
             }
+            7 if !live_paths.is_empty() && rng.pct(25) => {
+                // the very same text under another id (a copy of the file)
+                let from = rng.pick(&live_paths).clone();
+                let c = st.live[&pb(&from)].1.clone();
+                let to = rng.pick(&st.paths).clone();
+                st.live.insert(pb(&to), (to.clone(), c.clone()));
+                steps.push(mk(rng, Op::Add { path: to, content: c }, "copy_to_other_id"));
+            }
             7 => {
                 // the same content again (file saved unchanged), or an earlier version comes back
                 let (p, c) = if !live_paths.is_empty() && rng.pct(50) {
@@ -915,7 +931,7 @@ pub fn generate(rng: &mut Rng, prop: Prop, thorough: bool) -> (HistScenario, Str
     // always end with an observation
     steps.push(mk(rng, Op::Validate { times: 2 }, "validate"));
     let desc = format!(
-        "paths={} steps={} big={} callers={} policy={} observe_all={} w=[add {w_add} perturb {w_perturb} rm {w_remove} rm_absent {w_remove_absent} val {w_validate} disk {w_disk} add_file {w_add_file}] p_fault={p_fault} faults_enabled={:?} passthrough={} malformed={} dup={} {}",
+        "paths={} steps={} big={} coarse_ids={coarse_ids} callers={} policy={} observe_all={} w=[add {w_add} perturb {w_perturb} rm {w_remove} rm_absent {w_remove_absent} val {w_validate} disk {w_disk} add_file {w_add_file}] p_fault={p_fault} faults_enabled={:?} passthrough={} malformed={} dup={} {}",
         st.paths.len(),
         steps.len(),
         big,
@@ -934,6 +950,7 @@ pub fn generate(rng: &mut Rng, prop: Prop, thorough: bool) -> (HistScenario, Str
             policy,
             n_callers,
             observe_every_step,
+            coarse_ids,
         },
         desc,
     )
@@ -943,7 +960,7 @@ pub fn generate(rng: &mut Rng, prop: Prop, thorough: bool) -> (HistScenario, Str
 // Shrinking
 // ---------------------------------------------------------------------------------------------
 
-pub fn shrink_candidates(s: &HistScenario) -> Vec<HistScenario> {
+pub fn shrink_candidates(s: &HistScenario) -> (Vec<HistScenario>, usize) {
     let mut out = Vec::new();
     let n = s.steps.len();
     // remove chunks of steps (ddmin-like: halves, quarters, ..., single steps)
@@ -1068,6 +1085,7 @@ pub fn shrink_candidates(s: &HistScenario) -> Vec<HistScenario> {
             _ => {}
         }
     }
+    let content_start = out.len();
     // shrink contents
     for (i, st) in s.steps.iter().enumerate() {
         match &st.op {
@@ -1095,5 +1113,5 @@ pub fn shrink_candidates(s: &HistScenario) -> Vec<HistScenario> {
             _ => {}
         }
     }
-    out
+    (out, content_start)
 }
